@@ -410,7 +410,7 @@ def gen_database(rng, idx=0, shape=None):
     for i in range(nax):
         vs = rng.sample(fvars, rng.randint(0, min(3, len(fvars))))
         logical.append(('a', Assertion('ax-%d' % i, '|-', [rand_term(rng, db, vs, 2, heads)])))
-    nrule = rng.choice([0, 1, 1, 2])
+    nrule = rng.choice([0, 1, 1, 2, 2])
     for i in range(nrule):
         vs = rng.sample(fvars, rng.randint(1, 3))
         ne = rng.randint(1, 3)
@@ -441,7 +441,7 @@ def gen_database(rng, idx=0, shape=None):
     db.items += body
 
     # ---- forward prover
-    nt = rng.choice([0, 1, 1, 2, 2, 3])
+    nt = rng.choice([0, 1, 1, 2, 2, 3, 3])
     if not [h for h in heads if h[1] == 0]:
         nt = max(nt, 1)                  # no closed terms without a constant of arity 0
     tv = rng.sample(fvars, nt)
@@ -506,15 +506,16 @@ def gen_database(rng, idx=0, shape=None):
     nsteps = rng.randint(1, 7)
     base()
     last = None
-    userules = [it[1] for it in logical if it[1].ess] + [mp]
+    custom = [it[1] for it in logical if it[1].ess]
+    userules = custom * 3 + [mp]
     for _ in range(nsteps):
         r = rng.random()
         n = None
-        if r < 0.25:
+        if r < 0.2:
             n = base()
-        elif r < 0.5:
+        elif r < 0.4:
             n = weaken()
-        elif r < 0.65:
+        elif r < 0.5:
             n = distribute()
         else:
             n = apply_rule(rng.choice(userules))
